@@ -84,7 +84,12 @@ func runConsumer(r *rt.Run, which string, data []byte, splits []int, fault strin
 		rd.FailOnceAt(pos)
 	}
 	var res consumerResult
+	var rd0 io.Reader = rd
+	if fault == "" {
+		rd0 = typedReader(r, which, data, rd)
+	}
 	res.task = r.Solo("consumer:"+which, func() {
+		var rd io.Reader = rd0
 		switch which {
 		case "Next":
 			pr, err := control.NewParagraphReader(rd, nil)
